@@ -1,6 +1,442 @@
+/-
+  C12 — OpenRangeTransformer: every open range (`>a`, `<=b`) becomes a bracketed range with `*` on
+  the other side and nothing else changes; with `merge_ranges`, one-sided ranges that are operands of
+  the same AND are joined pairwise, which preserves the conjunction of the operands.
+  Property theorems only; the loop invariant and the `List.modify` lemmas are in
+  `Luqum.Lemmas.Merge`.
+-/
 import Luqum.Model.Transform
+import Luqum.Lemmas.Merge
+
 namespace Luqum.Props.C12
 open Luqum
-theorem openRange_term (m : Bool) (h : Str) (k : TermK) (v : Str) (l : Lay) :
-    openRange m h (.term k v l) = .term k v l.noName := rfl
+
+/-! ### vocabulary -/
+
+mutual
+/-- is there a `From` / `To` node anywhere in the tree? -/
+def hasOrange : Tree → Bool
+  | .term .. => false
+  | .none _ => false
+  | .field _ e _ => hasOrange e
+  | .group _ e _ => hasOrange e
+  | .approx _ e _ _ => hasOrange e
+  | .boost e _ _ => hasOrange e
+  | .unary _ e _ => hasOrange e
+  | .range a b _ _ _ => hasOrange a || hasOrange b
+  | .orange .. => true
+  | .op _ xs _ => hasOranges xs
+def hasOranges : List Tree → Bool
+  | [] => false
+  | x :: r => hasOrange x || hasOranges r
+end
+
+mutual
+/-- is there an `AndOperation` node anywhere in the tree? -/
+def hasAnd : Tree → Bool
+  | .term .. => false
+  | .none _ => false
+  | .field _ e _ => hasAnd e
+  | .group _ e _ => hasAnd e
+  | .approx _ e _ _ => hasAnd e
+  | .boost e _ _ => hasAnd e
+  | .unary _ e _ => hasAnd e
+  | .range a b _ _ _ => hasAnd a || hasAnd b
+  | .orange _ e _ _ => hasAnd e
+  | .op k xs _ => k == .and || hasAnds xs
+def hasAnds : List Tree → Bool
+  | [] => false
+  | x :: r => hasAnd x || hasAnds r
+end
+
+/-- the word `*` with the given layout -/
+def star (l : Lay) : Tree := .term .word ['*'] l
+
+mutual
+/-- **Specification** of `OpenRangeTransformer(merge_ranges=False, add_head=h)`: `>a` / `>=a` becomes
+`{a TO *]` / `[a TO *]`, `<b` / `<=b` becomes `[* TO b}` / `[* TO b]`, with `h` on both sides of
+`TO`; every other node is kept (attached names are dropped, as in every `TreeTransformer`). -/
+def convert (h : Str) : Tree → Tree
+  | .term k v l => .term k v l.noName
+  | .none l => .none l.noName
+  | .field n e l => .field n (convert h e) l.noName
+  | .group k e l => .group k (convert h e) l.noName
+  | .approx k e n l => .approx k (convert h e) n l.noName
+  | .boost e n l => .boost (convert h e) n l.noName
+  | .unary k e l => .unary k (convert h e) l.noName
+  | .range a b il ih l => .range (convert h a) (convert h b) il ih l.noName
+  | .orange .from e inc l =>
+    .range ((convert h e).setTail ((convert h e).tail ++ h)) (star { head := h }) inc true l.noName
+  | .orange .to e inc l =>
+    .range (star { tail := h }) ((convert h e).setHead ((convert h e).head ++ h)) true inc l.noName
+  | .op k xs l => .op k (converts h xs) l.noName
+def converts (h : Str) : List Tree → List Tree
+  | [] => []
+  | x :: r => convert h x :: converts h r
+end
+
+/-! ### 1. without merging: the specification -/
+
+mutual
+/-- **Without `merge_ranges` the transformer is `convert`.** -/
+theorem openRange_noMerge_spec (h : Str) : ∀ t : Tree, openRange false h t = convert h t
+  | .term .. => rfl
+  | .none _ => rfl
+  | .field _ e _ => by simp [openRange, convert, openRange_noMerge_spec h e]
+  | .group _ e _ => by simp [openRange, convert, openRange_noMerge_spec h e]
+  | .approx _ e _ _ => by simp [openRange, convert, openRange_noMerge_spec h e]
+  | .boost e _ _ => by simp [openRange, convert, openRange_noMerge_spec h e]
+  | .unary _ e _ => by simp [openRange, convert, openRange_noMerge_spec h e]
+  | .range a b _ _ _ => by
+      simp [openRange, convert, openRange_noMerge_spec h a, openRange_noMerge_spec h b]
+  | .orange .from e _ _ => by
+      simp [openRange, convert, openRange_noMerge_spec h e, star, wildcardWord, Tree.setHead,
+        Tree.setLay, Tree.lay]
+  | .orange .to e _ _ => by
+      simp [openRange, convert, openRange_noMerge_spec h e, star, wildcardWord, Tree.setTail,
+        Tree.setLay, Tree.lay]
+  | .op _ xs _ => by simp [openRange, convert, openRangeList_noMerge_spec h xs]
+theorem openRangeList_noMerge_spec (h : Str) :
+    ∀ xs : List Tree, openRangeList false h xs = converts h xs
+  | [] => rfl
+  | x :: r => by
+      simp [openRangeList, converts, openRange_noMerge_spec h x, openRangeList_noMerge_spec h r]
+end
+
+/-- `price:>=10 OR <x` with `add_head = " "` -/
+example :
+    openRange false [' ']
+      (.op .or [.field ['p'] (.orange .from (.term .word ['1', '0'] {}) true {}) { tail := [' '] },
+                .orange .to (.term .word ['x'] {}) false { head := [' '] }] { name := some ['n'] })
+    = .op .or [.field ['p'] (.range (.term .word ['1', '0'] { tail := [' '] })
+                                    (.term .word ['*'] { head := [' '] }) true true {}) { tail := [' '] },
+               .range (.term .word ['*'] { tail := [' '] })
+                      (.term .word ['x'] { head := [' '] }) true false { head := [' '] }] {} := rfl
+
+/-! ### no open range is left -/
+
+theorem hasOrange_setLay (t : Tree) (l : Lay) : hasOrange (t.setLay l) = hasOrange t := by
+  cases t <;> simp [Tree.setLay, hasOrange]
+
+theorem hasOranges_eq_false : ∀ xs : List Tree,
+    hasOranges xs = false ↔ ∀ t ∈ xs, hasOrange t = false
+  | [] => by simp [hasOranges]
+  | x :: r => by simp [hasOranges, hasOranges_eq_false r]
+
+theorem isWildcard_no_orange {t : Tree} (h : isWildcard t = true) : hasOrange t = false := by
+  cases t <;> simp [isWildcard] at h <;> simp [hasOrange]
+
+/-- joining two one-sided ranges neither introduces nor loses an open range -/
+theorem joinConj_hasOrange : JoinConj (fun t => hasOrange t = false) := by
+  apply joinConj_of_ranges
+  · intro lo hi il ih l clo chi cil cih cl h1 _ _ h4
+    simp [hasOrange, isWildcard_no_orange h1, isWildcard_no_orange h4, and_comm]
+  · intro lo hi il ih l clo chi cil cih cl _ h2 h3 _
+    simp [hasOrange, isWildcard_no_orange h2, isWildcard_no_orange h3]
+
+/-- the merge loop keeps a list of operands free of open ranges (and conversely) -/
+theorem mergeOps_hasOranges (xs : List Tree) : hasOranges (mergeOps xs) = hasOranges xs := by
+  have h := mergeOps_conj_of_joinConj _ joinConj_hasOrange xs
+  rw [← hasOranges_eq_false, ← hasOranges_eq_false] at h
+  cases h1 : hasOranges (mergeOps xs) <;> cases h2 : hasOranges xs <;> simp_all
+
+mutual
+/-- **No `From` / `To` node is left**, with or without merging. -/
+theorem no_orange_left (m : Bool) (h : Str) : ∀ t : Tree, hasOrange (openRange m h t) = false
+  | .term .. => by simp [openRange, hasOrange]
+  | .none _ => by simp [openRange, hasOrange]
+  | .field _ e _ => by simp [openRange, hasOrange, no_orange_left m h e]
+  | .group _ e _ => by simp [openRange, hasOrange, no_orange_left m h e]
+  | .approx _ e _ _ => by simp [openRange, hasOrange, no_orange_left m h e]
+  | .boost e _ _ => by simp [openRange, hasOrange, no_orange_left m h e]
+  | .unary _ e _ => by simp [openRange, hasOrange, no_orange_left m h e]
+  | .range a b _ _ _ => by simp [openRange, hasOrange, no_orange_left m h a, no_orange_left m h b]
+  | .orange .from e _ _ => by
+      simp [openRange, hasOrange, Tree.setTail, Tree.setHead, hasOrange_setLay,
+        no_orange_left m h e, wildcardWord]
+  | .orange .to e _ _ => by
+      simp [openRange, hasOrange, Tree.setTail, Tree.setHead, hasOrange_setLay,
+        no_orange_left m h e, wildcardWord]
+  | .op k xs _ => by
+      simp only [openRange]
+      split
+      · simp [hasOrange, mergeOps_hasOranges, no_oranges_left m h xs]
+      · simp [hasOrange, no_oranges_left m h xs]
+theorem no_oranges_left (m : Bool) (h : Str) :
+    ∀ xs : List Tree, hasOranges (openRangeList m h xs) = false
+  | [] => by simp [openRangeList, hasOranges]
+  | x :: r => by simp [openRangeList, hasOranges, no_orange_left m h x, no_oranges_left m h r]
+end
+
+example : hasOrange (.op .and [.orange .from (.term .word ['a'] {}) true {},
+    .group .group (.orange .to (.term .word ['b'] {}) false {}) {}] {}) = true := rfl
+
+/-! ### everything else is copied -/
+
+mutual
+/-- **A tree without open ranges is just copied** (`merge_ranges=False`). -/
+theorem openRange_noMerge_copy (h : Str) :
+    ∀ t : Tree, hasOrange t = false → openRange false h t = t.copy
+  | .term .., _ => rfl
+  | .none _, _ => rfl
+  | .field _ e _, hh => by
+      simp [hasOrange] at hh; simp [openRange, Tree.copy, openRange_noMerge_copy h e hh]
+  | .group _ e _, hh => by
+      simp [hasOrange] at hh; simp [openRange, Tree.copy, openRange_noMerge_copy h e hh]
+  | .approx _ e _ _, hh => by
+      simp [hasOrange] at hh; simp [openRange, Tree.copy, openRange_noMerge_copy h e hh]
+  | .boost e _ _, hh => by
+      simp [hasOrange] at hh; simp [openRange, Tree.copy, openRange_noMerge_copy h e hh]
+  | .unary _ e _, hh => by
+      simp [hasOrange] at hh; simp [openRange, Tree.copy, openRange_noMerge_copy h e hh]
+  | .range a b _ _ _, hh => by
+      simp [hasOrange] at hh
+      simp [openRange, Tree.copy, openRange_noMerge_copy h a hh.1, openRange_noMerge_copy h b hh.2]
+  | .orange .., hh => by simp [hasOrange] at hh
+  | .op _ xs _, hh => by
+      simp [hasOrange] at hh; simp [openRange, Tree.copy, openRangeList_noMerge_copy h xs hh]
+theorem openRangeList_noMerge_copy (h : Str) :
+    ∀ xs : List Tree, hasOranges xs = false → openRangeList false h xs = Tree.copies xs
+  | [], _ => rfl
+  | x :: r, hh => by
+      simp [hasOranges] at hh
+      simp [openRangeList, Tree.copies, openRange_noMerge_copy h x hh.1,
+        openRangeList_noMerge_copy h r hh.2]
+end
+
+mutual
+/-- **Ranges that are not operands of an AND are never merged**: on a tree without `AndOperation`
+the two modes agree. -/
+theorem openRange_merge_eq_noMerge (h : Str) :
+    ∀ t : Tree, hasAnd t = false → openRange true h t = openRange false h t
+  | .term .., _ => rfl
+  | .none _, _ => rfl
+  | .field _ e _, hh => by
+      simp [hasAnd] at hh; simp [openRange, openRange_merge_eq_noMerge h e hh]
+  | .group _ e _, hh => by
+      simp [hasAnd] at hh; simp [openRange, openRange_merge_eq_noMerge h e hh]
+  | .approx _ e _ _, hh => by
+      simp [hasAnd] at hh; simp [openRange, openRange_merge_eq_noMerge h e hh]
+  | .boost e _ _, hh => by
+      simp [hasAnd] at hh; simp [openRange, openRange_merge_eq_noMerge h e hh]
+  | .unary _ e _, hh => by
+      simp [hasAnd] at hh; simp [openRange, openRange_merge_eq_noMerge h e hh]
+  | .range a b _ _ _, hh => by
+      simp [hasAnd] at hh
+      simp [openRange, openRange_merge_eq_noMerge h a hh.1, openRange_merge_eq_noMerge h b hh.2]
+  | .orange .from e _ _, hh => by
+      simp [hasAnd] at hh; simp [openRange, openRange_merge_eq_noMerge h e hh]
+  | .orange .to e _ _, hh => by
+      simp [hasAnd] at hh; simp [openRange, openRange_merge_eq_noMerge h e hh]
+  | .op k xs _, hh => by
+      simp [hasAnd] at hh
+      simp [openRange, hh.1, openRangeList_merge_eq_noMerge h xs hh.2]
+theorem openRangeList_merge_eq_noMerge (h : Str) :
+    ∀ xs : List Tree, hasAnds xs = false → openRangeList true h xs = openRangeList false h xs
+  | [], _ => rfl
+  | x :: r, hh => by
+      simp [hasAnds] at hh
+      simp [openRangeList, openRange_merge_eq_noMerge h x hh.1,
+        openRangeList_merge_eq_noMerge h r hh.2]
+end
+
+/-- `[a TO *] OR [* TO b]` is not merged -/
+example :
+    openRange true []
+      (.op .or [.range (.term .word ['a'] {}) (star {}) true true {},
+                .range (star {}) (.term .word ['b'] {}) true true {}] {})
+    = .op .or [.range (.term .word ['a'] {}) (star {}) true true {},
+               .range (star {}) (.term .word ['b'] {}) true true {}] {} := rfl
+
+/-- **With `merge_ranges`, a tree with neither open ranges nor AND operations is just copied.** -/
+theorem openRange_merge_copy (h : Str) (t : Tree) (h1 : hasOrange t = false) (h2 : hasAnd t = false) :
+    openRange true h t = t.copy := by
+  rw [openRange_merge_eq_noMerge h t h2, openRange_noMerge_copy h t h1]
+
+/-- … and in general it is `convert` as long as there is no AND operation -/
+theorem openRange_merge_spec (h : Str) (t : Tree) (h2 : hasAnd t = false) :
+    openRange true h t = convert h t := by
+  rw [openRange_merge_eq_noMerge h t h2, openRange_noMerge_spec]
+
+/-- on an AND operation: transform the operands, then run the merge loop over them -/
+theorem openRange_merge_and (h : Str) (xs : List Tree) (l : Lay) :
+    openRange true h (.op .and xs l) = .op .and (mergeOps (openRangeList true h xs)) l.noName := rfl
+
+/-! ### 2. merging preserves the conjunction -/
+
+section Sem
+variable {V : Type} [LE V] [LT V]
+
+/-- lower bound `lo` (inclusive iff `il`) under the bound valuation `ι`; `none` = unbounded (`*`) -/
+def lowerOk (ι : Tree → Option V) (lo : Tree) (il : Bool) (x : V) : Prop :=
+  match ι lo with
+  | none => True
+  | some a => if il then a ≤ x else a < x
+
+def upperOk (ι : Tree → Option V) (hi : Tree) (ih : Bool) (x : V) : Prop :=
+  match ι hi with
+  | none => True
+  | some b => if ih then x ≤ b else x < b
+
+/-- Does the value `x` satisfy the operand `t`? A range is read over the ordered type `V` through
+the bound valuation `ι` (its own layout plays no role); any other operand through an arbitrary `P`. -/
+def sat (ι : Tree → Option V) (P : Tree → V → Prop) : Tree → V → Prop
+  | .range lo hi il ih _, x => lowerOk ι lo il x ∧ upperOk ι hi ih x
+  | t, x => P t x
+
+/-- joining `[* TO b]` with `[a TO *]` (in either order) is their conjunction, as soon as the
+valuation reads `*` as "unbounded" -/
+theorem joinConj_sat (ι : Tree → Option V) (P : Tree → V → Prop)
+    (hι : ∀ b, isWildcard b = true → ι b = none) (x : V) : JoinConj (fun t => sat ι P t x) := by
+  apply joinConj_of_ranges
+  · intro lo hi il ih l clo chi cil cih cl h1 _ _ h4
+    simp [sat, lowerOk, upperOk, hι lo h1, hι chi h4, and_comm]
+  · intro lo hi il ih l clo chi cil cih cl _ h2 h3 _
+    simp [sat, lowerOk, upperOk, hι hi h2, hι clo h3]
+
+/-- **Merging preserves the conjunction of the operands**: a value satisfies every operand of the
+merged list iff it satisfies every original operand -- for every ordered value type, every reading of
+the non-range operands, and every reading of the bounds in which `*` means "unbounded". -/
+theorem mergeOps_conj (ι : Tree → Option V) (P : Tree → V → Prop)
+    (hι : ∀ b, isWildcard b = true → ι b = none) (xs : List Tree) (x : V) :
+    (∀ t ∈ mergeOps xs, sat ι P t x) ↔ (∀ t ∈ xs, sat ι P t x) :=
+  mergeOps_conj_of_joinConj _ (joinConj_sat ι P hι x) xs
+
+/-- any reading of the bounds, corrected to read `*` as "unbounded" -/
+def starAware (ι : Tree → Option V) : Tree → Option V :=
+  fun b => if isWildcard b then none else ι b
+
+theorem mergeOps_conj_starAware (ι : Tree → Option V) (P : Tree → V → Prop) (xs : List Tree) (x : V) :
+    (∀ t ∈ mergeOps xs, sat (starAware ι) P t x) ↔ (∀ t ∈ xs, sat (starAware ι) P t x) :=
+  mergeOps_conj _ P (fun b hb => by simp [starAware, hb]) xs x
+
+/-- `sat` only looks at the valuation of the bounds of the operand -/
+theorem sat_starAware (ι : Tree → Option V) (P : Tree → V → Prop) (t : Tree) (x : V)
+    (h : ∀ b ∈ boundsOf t, isWildcard b = true → ι b = none) :
+    sat (starAware ι) P t x ↔ sat ι P t x := by
+  cases t <;> try exact Iff.rfl
+  rename_i lo hi il ih l
+  have h1 : starAware ι lo = ι lo := by
+    cases hw : isWildcard lo <;> simp [starAware, hw]
+    exact (h lo (by simp [boundsOf]) hw).symm
+  have h2 : starAware ι hi = ι hi := by
+    cases hw : isWildcard hi <;> simp [starAware, hw]
+    exact (h hi (by simp [boundsOf]) hw).symm
+  simp [sat, lowerOk, upperOk, h1, h2]
+
+/-- `mergeOps_conj` with the hypothesis on the valuation restricted to the bounds that occur in the
+operands -/
+theorem mergeOps_conj_local (ι : Tree → Option V) (P : Tree → V → Prop) (xs : List Tree)
+    (hι : ∀ t ∈ xs, ∀ b ∈ boundsOf t, isWildcard b = true → ι b = none) (x : V) :
+    (∀ t ∈ mergeOps xs, sat ι P t x) ↔ (∀ t ∈ xs, sat ι P t x) := by
+  have hι' := mergeOps_all (fun t => ∀ b ∈ boundsOf t, isWildcard b = true → ι b = none)
+    (fun a c cs ha hc => boundsOf_joinRange _ a c cs ha hc) xs hι
+  have h := mergeOps_conj_starAware ι P xs x
+  constructor
+  · intro hm t ht
+    exact (sat_starAware ι P t x (hι t ht)).1
+      (h.1 (fun u hu => (sat_starAware ι P u x (hι' u hu)).2 (hm u hu)) t ht)
+  · intro hx t ht
+    exact (sat_starAware ι P t x (hι' t ht)).1
+      (h.2 (fun u hu => (sat_starAware ι P u x (hι u hu)).2 (hx u hu)) t ht)
+
+/-- the same, for the operands of a transformed AND operation -/
+theorem openRange_and_conj (ι : Tree → Option V) (P : Tree → V → Prop)
+    (hι : ∀ b, isWildcard b = true → ι b = none) (h : Str) (xs : List Tree) (l : Lay) (x : V) :
+    (∀ t ∈ (openRange true h (.op .and xs l)).children, sat ι P t x) ↔
+      (∀ t ∈ openRangeList true h xs, sat ι P t x) :=
+  mergeOps_conj ι P hι _ x
+
+end Sem
+
+/-- `[a TO *] AND [b TO *] AND w AND [* TO y} AND [* TO z]  ->  [a TO y} AND [b TO z] AND w`
+(the example of the docstring, with another operand in between) -/
+example :
+    mergeOps [.range (.term .word ['a'] {}) (star {}) true true { head := ['1'] },
+              .range (.term .word ['b'] {}) (star {}) false true { head := ['2'] },
+              .term .word ['w'] {},
+              .range (star {}) (.term .word ['y'] {}) true false { head := ['3'] },
+              .range (star {}) (.term .word ['z'] {}) true true { head := ['4'] }]
+    = [.range (.term .word ['a'] {}) (.term .word ['y'] {}) true false { head := ['1'] },
+       .range (.term .word ['b'] {}) (.term .word ['z'] {}) false true { head := ['2'] },
+       .term .word ['w'] {}] := rfl
+
+/-- a reading of one-character bounds as integers -/
+def charVal : Tree → Option Int
+  | .term .word [c] _ => if c = '*' then none else some (Int.ofNat c.toNat)
+  | _ => none
+
+/-- `{a TO c]` holds of `'b'` and of `'c'`, not of `'a'` -/
+example : sat charVal (fun _ _ => False)
+    (.range (.term .word ['a'] {}) (.term .word ['c'] {}) false true {}) 98 := by
+  simp [sat, lowerOk, upperOk, charVal]
+example : ¬ sat charVal (fun _ _ => False)
+    (.range (.term .word ['a'] {}) (.term .word ['c'] {}) false true {}) 97 := by
+  simp [sat, lowerOk, upperOk, charVal]
+
+/-! ### what the merge loop does to the operand list -/
+
+/-- **No one-sided range among the operands: nothing happens.** -/
+theorem mergeOps_noSide (xs : List Tree) (h : ∀ t ∈ xs, boundSide t = none) : mergeOps xs = xs := by
+  unfold mergeOps; rw [foldl_mergeStep_noSide xs {} h]; rfl
+
+example : mergeOps [.range (star {}) (star {}) true true {}, .term .word ['w'] {},
+      .range (.term .word ['a'] {}) (.term .word ['b'] {}) true true {}]
+    = [.range (star {}) (star {}) true true {}, .term .word ['w'] {},
+      .range (.term .word ['a'] {}) (.term .word ['b'] {}) true true {}] := rfl
+
+/-- **Every bound of a merged operand is a bound of an original operand** (the loop only recombines
+bounds). -/
+theorem mergeOps_bounds (xs : List Tree) :
+    ∀ t ∈ mergeOps xs, ∀ b ∈ boundsOf t, ∃ t' ∈ xs, b ∈ boundsOf t' :=
+  mergeOps_all (fun t => ∀ b ∈ boundsOf t, ∃ t' ∈ xs, b ∈ boundsOf t')
+    (fun a c cs ha hc => boundsOf_joinRange _ a c cs ha hc) xs
+    (fun t ht _ hb => ⟨t, ht, hb⟩)
+
+/-- number of joins performed by the merge loop -/
+def joinCount (xs : List Tree) : Nat := joinCountFrom {} xs
+
+/-- **Every operand is either kept or joined into an earlier one.** -/
+theorem mergeOps_length (xs : List Tree) : (mergeOps xs).length + joinCount xs = xs.length := by
+  have h := foldl_mergeStep_length xs {}
+  simpa [mergeOps, joinCount] using h
+
+theorem mergeOps_length_le (xs : List Tree) : (mergeOps xs).length ≤ xs.length := by
+  have h := mergeOps_length xs; omega
+
+/-- **The number of joins** is the number of pairs of opposite one-sided ranges: whenever a lower-bound
+range and an upper-bound range are both available, they are joined. -/
+theorem joinCount_eq_min (xs : List Tree) :
+    joinCount xs = min (sideCount .low xs) (sideCount .high xs) := by
+  have h := foldl_mergeStep_joinCount xs {} 0 0 MergeSt.inv_init MergeSt.bal_init
+  simpa [joinCount] using h
+
+theorem mergeOps_length_eq (xs : List Tree) :
+    (mergeOps xs).length = xs.length - min (sideCount .low xs) (sideCount .high xs) := by
+  have h := mergeOps_length xs; rw [joinCount_eq_min] at h; omega
+
+/-- `[* TO y] AND [a TO *] AND [b TO *] AND [c TO *] AND [* TO z]`: two joins, three operands left -/
+example :
+    let xs := [.range (star {}) (.term .word ['y'] {}) true true {},
+               .range (.term .word ['a'] {}) (star {}) true true {},
+               .range (.term .word ['b'] {}) (star {}) true true {},
+               .range (.term .word ['c'] {}) (star {}) true true {},
+               .range (star {}) (.term .word ['z'] {}) true true {}]
+    sideCount .low xs = 3 ∧ sideCount .high xs = 2 ∧ (mergeOps xs).length = 3 := by decide
+
+/-- **The operands that are not one-sided ranges are all kept, in their order.** -/
+theorem mergeOps_sublist (xs : List Tree) :
+    (xs.filter (fun t => (boundSide t).isNone)).Sublist (mergeOps xs) := by
+  have h := foldl_mergeStep_sublist xs {} MergeSt.inv_init [] (List.nil_sublist _)
+  rw [List.nil_append] at h
+  exact h.trans List.filter_sublist
+
+/-- They are in general *not* the only operands of the result that are not one-sided ranges: a joined
+range is bound on both sides. So `(mergeOps xs).filter noSide = xs.filter noSide` is false. -/
+example :
+    let xs := [.range (.term .word ['a'] {}) (star {}) true true {},
+               .range (star {}) (.term .word ['b'] {}) true true {}]
+    ((mergeOps xs).filter (fun t => (boundSide t).isNone)).length = 1 ∧
+    (xs.filter (fun t => (boundSide t).isNone)).length = 0 ∧ joinCount xs = 1 := by decide
+
 end Luqum.Props.C12
